@@ -30,6 +30,19 @@ var commonAssumptions = []string{
 func allChecks() []CheckSpec {
 	return []CheckSpec{
 		{
+			ID: "C15",
+			Harnesses: []HarnessSpec{
+				{Fn: "verifC15HandleConn", Lemma: "one accepted TCP connection through the real handleConn/readStreamingPacket/stun.Message.Decode/getConn/createConn/AddConn/startReading: closed iff the first frame is missing, truncated, oversized (>512), undecodable, not Binding or lacks USERNAME; otherwise attached to exactly the packet conn of (ufrag before ':', family of the peer, local IP) — created with the expiry timer armed when the ufrag is unknown, the agent's own when it had asked for it; the first message and later packets are delivered there in order with the peer's address; a reply written to that address goes back over the same connection with RFC 4571 framing; provisional conns expire; Close closes listener and connections and hands out nothing afterwards",
+					Bounds: "8 first-frame kinds (two well-formed with known/unknown ufrag and a symbolic priority/transaction id, no USERNAME, non-Binding, an arbitrary 20-byte header, oversized, truncated, nothing), segmentations with up to 2 partial reads (1 byte or half), ufrag pre-registered or not, one later 3-byte packet and one 2-byte reply with symbolic bytes", MustReach: []string{"rejected", "admitted", "known-ufrag", "unknown-ufrag", "expired", "done"},
+					Cfg: func(c *HarnessCfg, tier int) { c.GoPolicy = "queue" }},
+			},
+			Assumptions: append([]string{
+				"sequential: the accept loop, per-connection reader and close watchers are scheduled cooperatively (a blocked goroutine yields); time.AfterFunc callbacks fire only when the harness fires them",
+				"net.Listener and net.Conn are fakes; Read returns 1..len(p) bytes",
+			}, commonAssumptions...),
+			Outside: "expiry timing, concurrent accepts/removals, Close waiting for goroutines, the goroutine census, slow-loris timing",
+		},
+		{
 			ID: "C09",
 			Harnesses: []HarnessSpec{
 				{Fn: "verifC09Srflx", Lemma: "the goroutine body of gatherCandidatesSrflx (listen, STUN exchange, candidate creation, addCandidate) on a fake net: on every path each socket it opened is closed or adopted by a started candidate, and candidate removal closes adopted sockets exactly once",
